@@ -400,6 +400,10 @@ class BoolEval(object):
                             raise Undecided('%s: non-constant slice' % func.construct)
                         return v
                     return obj[slice(c(s.lower), c(s.upper), c(s.step))]
+            if isinstance(obj, dict):
+                k = self.eval(e.slice, env, func) if not isinstance(e.slice, ast.Constant) else e.slice.value
+                if isinstance(k, (str, int)) and k in obj:
+                    return obj[k]
             raise Undecided('%s: unsupported subscript %s' % (func.construct, unparse(e)))
         if isinstance(e, ast.IfExp):
             return self.eval(e.body if self.truth(e.test, env, func) else e.orelse, env, func)
@@ -429,6 +433,17 @@ class BoolEval(object):
         f = self.index.functions.get(q)
         if f is not None:
             return FuncV(f)
+        # a module-level table (`_COMBINERS = {'and': operator.and_, ...}`): its entries, evaluated in the module's scope
+        modname, _, name = q.rpartition('.')
+        mod = self.index.modules.get(modname)
+        if mod is not None and isinstance(mod.assigns.get(name), ast.Dict):
+            d = mod.assigns[name]
+            if all(isinstance(k, ast.Constant) for k in d.keys):
+                out = {}
+                for k, v in zip(d.keys, d.values):
+                    qv = self.index.resolve_expr(mod, v) if isinstance(v, (ast.Name, ast.Attribute)) else None
+                    out[k.value] = self._global(qv, v, func) if qv is not None else Ref(unparse(v))
+                return out
         return Ref(q)
 
     def getattr(self, obj, attr, func, node=None):
